@@ -708,7 +708,35 @@ def rule_PL7(ctx, tier):
         else:
             rr.fail("startup:not-queued", "a tower loaded with pending appointments is not handed to the retry manager at start-up", where=wp.line_of(sw))
     if not sends:
-        rr.fail("startup:no-send", "WTClient::with_proxy never feeds the retry manager", where=wp.span)
+        # iterator form: `towers.iter().filter(|t| t.status.is_temporary_unreachable()).for_each(|t| send(Stale(pending)))`
+        found = False
+        for cid in P.family(wp.id):
+            cb = P.bodies[cid]
+            if cid == wp.id:
+                continue
+            for bb in sites_containing(cb, "UnboundedSender", "::send"):
+                found = True
+                d = og.show(arg_origin(ctx, cb, bb, 1))
+                # the adaptor call in the parent that receives this closure, and the filter in front of it
+                gate = False
+                pb = P.bodies.get(cb.parent)
+                for pbb, pt in (pb.calls() if pb else []):
+                    for i in range(len(pt.get("args", []))):
+                        a = arg_origin(ctx, pb, pbb, i)
+                        if isinstance(a, tuple) and a and a[0] == "closure" and a[1] == cid and (call_target(pt) or "").endswith("::for_each"):
+                            recv = og.strip(arg_origin(ctx, pb, pbb, 0))
+                            for x in og.walk(recv):
+                                if isinstance(x, tuple) and x and x[0] == "call" and x[1].endswith("::filter") and len(x[2]) == 2 and isinstance(x[2][1], tuple) and x[2][1][0] == "closure" and x[2][1][1] in P.bodies:
+                                    fr = ctx.og.local(P.bodies[x[2][1][1]], 0)
+                                    if isinstance(fr, tuple) and fr and fr[0] in ("call", "ret") and fr[1].endswith("TowerStatus::is_temporary_unreachable"):
+                                        gate = True
+                if gate and "RevocationData::Stale" in d and "f:pending_appointments" in d and always_reaches(cb, [0], [bb]):
+                    rr.ok("start-up: Stale(pending) sent for temporarily unreachable towers (filter + for_each)")
+                    rr.ok("start-up: every temporarily unreachable tower is queued (for_each visits every filtered item)")
+                else:
+                    rr.fail("startup:send", "start-up send is `%s` / not gated by is_temporary_unreachable" % d[:100], where=cb.line_of(bb))
+        if not found:
+            rr.fail("startup:no-send", "WTClient::with_proxy never feeds the retry manager", where=wp.span)
     # loader sibling agreement
     for ld, probe in ((PDBM + "load_towers", "exists_misbehaving_proof"), (PDBM + "load_tower_record", "load_misbehaving_proof")):
         b = P.require(ld)
